@@ -13,10 +13,16 @@ Proved for every state satisfying the C07 invariant (every reachable state), eve
 * the path a swap takes lies ON the ideal curve (`swap_path_on_ideal_curve`): Σ exact out of its steps = ideal out of
   Σ exact in of its steps, whatever the number of buckets crossed;
 * EXACT-IN, upper side (`exact_in_out_le_ideal`): `amountOut ≤ idealOut((1 − spf)·amountIn) ≤ idealOut((1 − spf)·specified)`;
-* EXACT-IN, lower side (`exact_in_out_ge_ideal_shifted`): see §3.
+* EXACT-IN, lower side (`exact_in_out_ge_ideal_shifted`):
+    `idealOut((1 − spf)·consumed − δ) − steps·outLossU − 1 token < amountOut`,   `δ = sumInSlack` ≈ one token per step
+  (`in_slack_bounded`: each step's slack ≤ 1 token + 2 raw units + amountIn_step·10^-18 + remaining·10^-30 + liquidity·10^-24);
+* EXACT-OUT, pool's side (`exact_out_out_le_ideal`): `amountOut ≤ idealOut((1 − spf)·amountIn)`, i.e. the amount charged, net of
+  the spread factor, is at least the ideal amount in for what was paid out (`idealOut` is monotone: `x ≥ ideal_in(y)` iff
+  `idealOut x ≥ y`).
+NOT proved (named `…_partial` in §5 with what is missing): the lower side for exact-out.
 -/
 import OsmoVerif.Props.C03Limit
-import OsmoVerif.Proofs.CLIdeal2
+import OsmoVerif.Proofs.CLIdeal3
 
 namespace OsmoVerif.Props.C03Ideal
 open OsmoVerif.Num OsmoVerif.Spec OsmoVerif.Gen OsmoVerif.CL OsmoVerif.CLPool OsmoVerif.CLBook OsmoVerif.CLSolv
@@ -156,6 +162,146 @@ theorem executed_exact_in_out_le_ideal {p p' : Pool} (hinv : Inv p) (hspf : SpfO
     (aout : ℚ) * 10 ^ 18 ≤ poolIdealOut p zfo ((ain : ℚ) * (10 ^ 18 - p.spf)) := by
   obtain ⟨r, _, hex, e1, e2, _⟩ := swap_bal h
   have := (exact_in_out_le_ideal hinv hspf (execSwap_spec hex)).1
+  rw [e1, e2]; exact this
+
+/-! ## 3. exact-in: not much less than the ideal for the same amount -/
+
+/-- the per-step slack `inSlack` (Proofs/CLIdeal3.lean), restated. -/
+theorem in_slack_def (zfo : Bool) (spf : Int) (e : StepRec) (liq sp next amt : Int) (tr : List StepRec) :
+    inSlack zfo spf e =
+      (if e.target ≠ e.res.sqrtPriceNext ∧ 0 < spf then
+        (if zfo then priceSlack0 e.st.pool.liquidity e.st.pool.sqrtPrice e.res.sqrtPriceNext (e.st.remaining * (P18 - spf))
+          else (e.st.pool.liquidity : ℚ) / 10 ^ 36)
+      else inGain zfo e.res.sqrtPriceNext e.st.pool.sqrtPrice + (e.res.amountSpecified : ℚ) / 10 ^ 18 + 1) ∧
+    priceSlack0 liq sp next amt =
+      10 ^ 36 * (10 ^ 36 + ((amt : ℚ) * sp / 10 ^ 36 + (liq : ℚ) * 10 ^ 18) + next) / ((next : ℚ) * sp) / 10 ^ 18 ∧
+    sumInSlack zfo spf (e :: tr) = inSlack zfo spf e + sumInSlack zfo spf tr ∧ sumInSlack zfo spf [] = 0 :=
+  ⟨rfl, rfl, rfl, rfl⟩
+
+/-- EXACT-IN, LOWER SIDE, full (any number of buckets, any price limit).  With `consumed = specified·10^18 − remaining` (raw
+18-decimal: what the swap took of the specified amount, spread charges included), `δ = sumInSlack zfo spf tr` and
+`steps·outLossU + 10^18` the output-side rounding of `C03.swap_shortfall_bounded`:
+  `idealOut(consumed·(1 − spf) − δ) − steps·outLossU − 10^18 < amountOut·10^18`
+and, since `consumed > (amountIn − 1)·10^18`, the same with `(amountIn − 1)·(10^18 − spf)` in place of `consumed·(1 − spf)`.
+Together with `exact_in_out_le_ideal`:  `idealOut(net in − δ) − ε < amountOut ≤ idealOut(net in)`. -/
+theorem exact_in_out_ge_ideal_shifted {p : Pool} (hinv : Inv p) (hspf : SpfOK p.spf) {zfo : Bool} {pl specified : Int}
+    {r : SwapOut}
+    (h : computeSwap true zfo p.spf pl ⟨p.sqrtPrice, p.tick, p.liquidity⟩ (tickList p) specified = some r) :
+    ∃ (limit : Int) (tr : List StepRec) (st' : SwapSt),
+      Run true zfo p.spf limit
+        { remaining := specified * P18, calculated := 0, pool := ⟨p.sqrtPrice, p.tick, p.liquidity⟩, spreadTotal := 0,
+          noProgress := 0 } tr st' ∧
+      tr.length = r.steps ∧ 0 ≤ st'.remaining ∧
+      poolIdealOut p zfo (((specified * P18 - st'.remaining : Int) : ℚ) * (10 ^ 18 - p.spf) / 10 ^ 18 - sumInSlack zfo p.spf tr) -
+          r.steps * outLossU zfo (pathFloor zfo p.sqrtPrice) - 10 ^ 18 < (r.amountOut : ℚ) * 10 ^ 18 ∧
+      poolIdealOut p zfo (((r.amountIn : ℚ) - 1) * (10 ^ 18 - p.spf) - sumInSlack zfo p.spf tr) -
+          r.steps * outLossU zfo (pathFloor zfo p.sqrtPrice) - 10 ^ 18 < (r.amountOut : ℚ) * 10 ^ 18 := by
+  obtain ⟨limit, tr, st', _, hv, hrun, hlen, hp, hrem0, _, c1, c2, hsum, _, hgood, _, hw⟩ := computeSwap_walk hinv hspf h
+  obtain ⟨hs0, hs1⟩ := spfOK_lt hspf
+  have hr := (rounding_of_run_goodL hs0 hs1 hrun hgood hlen c1 c2).2.1 rfl
+  simp only at hr
+  have hnet := run_net_le_exact hs0 hs1 hrun hgood
+  simp only [↓reduceIte] at hsum
+  rw [hsum] at hnet c1
+  have qs1 : (0 : ℚ) < 10 ^ 18 - p.spf := by
+    have : ((p.spf : Int) : ℚ) < ((P18 : Int) : ℚ) := Int.cast_lt.mpr hs1
+    rw [P18_cast] at this; linarith
+  have hw' : sumExactOut zfo tr = poolIdealOut p zfo (sumExactIn zfo tr) := hw
+  have hX : ((specified * P18 - st'.remaining : Int) : ℚ) * (10 ^ 18 - p.spf) / 10 ^ 18 - sumInSlack zfo p.spf tr ≤
+      sumExactIn zfo tr := by
+    rw [sub_le_iff_le_add, div_le_iff₀ (by positivity)]
+    exact hnet
+  have hcons : (((r.amountIn : ℚ) - 1) * 10 ^ 18) < ((specified * P18 - st'.remaining : Int) : ℚ) := by
+    have : (((r.amountIn - 1) * P18 : Int) : ℚ) < ((specified * P18 - st'.remaining : Int) : ℚ) := Int.cast_lt.mpr c1.1
+    push_cast at this ⊢; rw [P18_cast] at this; exact this
+  have hX2 : ((r.amountIn : ℚ) - 1) * (10 ^ 18 - p.spf) - sumInSlack zfo p.spf tr ≤
+      ((specified * P18 - st'.remaining : Int) : ℚ) * (10 ^ 18 - p.spf) / 10 ^ 18 - sumInSlack zfo p.spf tr := by
+    have : ((r.amountIn : ℚ) - 1) * (10 ^ 18 - p.spf) ≤
+        ((specified * P18 - st'.remaining : Int) : ℚ) * (10 ^ 18 - p.spf) / 10 ^ 18 := by
+      rw [le_div_iff₀ (by positivity)]
+      have := mul_le_mul_of_nonneg_right (le_of_lt hcons) (le_of_lt qs1)
+      linarith
+    linarith
+  have m1 := (ideal_out_monotone hinv zfo hX).2
+  have m2 := (ideal_out_monotone hinv zfo hX2).2
+  rw [hw'] at hr
+  refine ⟨limit, tr, st', hrun, hlen, hrem0, ?_, ?_⟩
+  · exact lt_of_le_of_lt (sub_le_sub_right (sub_le_sub_right m1 _) _) hr
+  · exact lt_of_le_of_lt (sub_le_sub_right (sub_le_sub_right (le_trans m2 m1) _) _) hr
+
+/-- the slack in numbers.  When the sqrt prices of the path are ≥ 10^-6 (always going down; going up when the pool's is),
+every step's slack is at most one token + 2 raw units + its own amount in·10^-18 + the amount then remaining·10^-30 + the
+bucket's liquidity·10^-24 (all raw 18-decimal; the last two terms are the rounding of the next sqrt price in the step that
+does not reach its target). -/
+theorem in_slack_bounded {p : Pool} (hinv : Inv p) (hspf : SpfOK p.spf) {zfo : Bool} {pl specified : Int} {r : SwapOut}
+    (hfloor : zfo = true ∨ 1000000000000000000000000000000 ≤ p.sqrtPrice)
+    (h : computeSwap true zfo p.spf pl ⟨p.sqrtPrice, p.tick, p.liquidity⟩ (tickList p) specified = some r) :
+    ∃ (limit : Int) (tr : List StepRec) (st' : SwapSt),
+      Run true zfo p.spf limit
+        { remaining := specified * P18, calculated := 0, pool := ⟨p.sqrtPrice, p.tick, p.liquidity⟩, spreadTotal := 0,
+          noProgress := 0 } tr st' ∧
+      tr.length = r.steps ∧
+      ∀ e ∈ tr, inSlack zfo p.spf e ≤ 10 ^ 18 + 2 + (e.res.amountSpecified : ℚ) / 10 ^ 18 +
+        (e.st.remaining : ℚ) / 10 ^ 30 + (e.st.pool.liquidity : ℚ) / 10 ^ 24 := by
+  obtain ⟨limit, tr, st', _, hv, hrun, hlen, _, _, _, _, _, _, _, hgood, _, _⟩ := computeSwap_walk hinv hspf h
+  obtain ⟨hs0, hs1⟩ := spfOK_lt hspf
+  refine ⟨limit, tr, st', hrun, hlen, fun e he => ?_⟩
+  obtain ⟨⟨⟨hliq, _⟩, hsp, hn, hdirs⟩, _, _⟩ := hgood e he
+  obtain ⟨hrem, _, hstep⟩ := hrun.mem e he
+  have hfl := (run_floorL hrun hgood).2 e he
+  have hm : 1000000000000000000000000000000 ≤ pathFloor zfo p.sqrtPrice := by
+    unfold pathFloor
+    rcases hfloor with rfl | hge
+    · simp
+    · split
+      · exact Int.le_refl _
+      · exact hge
+  simp only at hfl
+  have ht : 0 < e.target := by
+    cases zfo
+    · simp only [Bool.false_eq_true, ↓reduceIte] at hdirs; omega
+    · simp only [↓reduceIte] at hdirs; omega
+  unfold stepOf at hstep
+  simp only [↓reduceIte] at hstep
+  obtain ⟨_, _, ⟨k, k0, ek⟩, _⟩ := stepOutGivenIn_curve hliq hsp ht hs0 hs1 (by omega) hstep
+  have a0 : 0 ≤ e.res.amountSpecified := by rw [ek]; exact Int.mul_nonneg k0 P18_nonneg
+  exact inSlack_le hs0 hs1 (by omega) (by omega) hliq (by omega) a0
+
+/-! ## 4. exact-out: the amount charged covers the ideal amount in for what was paid out -/
+
+/-- EXACT-OUT, the pool's side, full: `amountOut·10^18 ≤ idealOut(amountIn·(10^18 − spf))` — the ideal curve pays at least the
+amount paid out for the amount charged net of the exact spread factor; equivalently (the ideal amount out is monotone in the
+amount in) the amount charged net of the spread factor is at least the ideal amount in for the amount paid out. -/
+theorem exact_out_out_le_ideal {p : Pool} (hinv : Inv p) (hspf : SpfOK p.spf) {zfo : Bool} {pl specified : Int}
+    {r : SwapOut}
+    (h : computeSwap false zfo p.spf pl ⟨p.sqrtPrice, p.tick, p.liquidity⟩ (tickList p) specified = some r) :
+    (r.amountOut : ℚ) * 10 ^ 18 ≤ poolIdealOut p zfo ((r.amountIn : ℚ) * (10 ^ 18 - p.spf)) := by
+  obtain ⟨limit, tr, st', _, hv, hrun, hlen, hp, _, _, c1, c2, _, _, hgood, _, hw⟩ := computeSwap_walk hinv hspf h
+  obtain ⟨hs0, hs1⟩ := spfOK_lt hspf
+  have hc := curve_of_run_goodL hs0 hs1 (fun hpos => limit_pos_of_valid hpos hv) hrun hgood c1 c2
+  have hnet := run_exact_le_net_out hs0 hs1 hrun hgood
+  have qs1 : (0 : ℚ) < 10 ^ 18 - p.spf := by
+    have : ((p.spf : Int) : ℚ) < ((P18 : Int) : ℚ) := Int.cast_lt.mpr hs1
+    rw [P18_cast] at this; linarith
+  have hceil : ((sumIn false tr + sumCharge tr : Int) : ℚ) ≤ (r.amountIn : ℚ) * 10 ^ 18 := by
+    have : ((sumIn false tr + sumCharge tr : Int) : ℚ) ≤ ((r.amountIn * P18 : Int) : ℚ) := Int.cast_le.mpr c1.2
+    rw [Int.cast_mul, P18_cast] at this; exact this
+  have hX : sumExactIn zfo tr ≤ (r.amountIn : ℚ) * (10 ^ 18 - p.spf) := by
+    have h1 : sumExactIn zfo tr * 10 ^ 18 ≤ (r.amountIn : ℚ) * 10 ^ 18 * (10 ^ 18 - p.spf) :=
+      le_trans hnet (mul_le_mul_of_nonneg_right hceil (le_of_lt qs1))
+    have h2 : sumExactIn zfo tr * 10 ^ 18 ≤ (r.amountIn : ℚ) * (10 ^ 18 - p.spf) * 10 ^ 18 := by linarith
+    exact le_of_mul_le_mul_right h2 (by positivity)
+  have hw' : sumExactOut zfo tr = poolIdealOut p zfo (sumExactIn zfo tr) := hw
+  calc (r.amountOut : ℚ) * 10 ^ 18 ≤ sumExactOut zfo tr := hc.1
+    _ = poolIdealOut p zfo (sumExactIn zfo tr) := hw'
+    _ ≤ _ := (ideal_out_monotone hinv zfo hX).2
+
+/-- … for a swap executed through the pool's own operation (`SwapExactAmountOut`). -/
+theorem executed_exact_out_le_ideal {p p' : Pool} (hinv : Inv p) (hspf : SpfOK p.spf) {zfo : Bool}
+    {specified ain aout fee : Int} (h : CLPool.swap p false zfo specified = some (p', ain, aout, fee)) :
+    (aout : ℚ) * 10 ^ 18 ≤ poolIdealOut p zfo ((ain : ℚ) * (10 ^ 18 - p.spf)) := by
+  obtain ⟨r, _, hex, e1, e2, _⟩ := swap_bal h
+  have := exact_out_out_le_ideal hinv hspf (execSwap_spec hex)
   rw [e1, e2]; exact this
 
 end OsmoVerif.Props.C03Ideal
